@@ -481,7 +481,17 @@ def _threshold_cases(rng, tier):
     if tier == 'quick':
         members = [c for c in pool if c['size'] == 'members']
         pixels = [c for c in pool if c['size'] == 'pixels']
-        return rng.sample(pixels, 6) + rng.sample(members, 3)
+        npx = lambda c: int(np.prod(c['shape']))
+        big = [c for c in pixels if npx(c) >= 2 ** 16]            # unsigned 16-bit narrowing needs >= 2^16, signed > 2^15
+        pick = [rng.choice([c for c in big if c['kind'] == k]) for k in ('rank', 'mean', 'tm')]
+        pick += [c for c in big if c['kind'] == 'find' and npx(c) == 2 ** 16 + 1]          # both orientations
+        pick += [c for c in big if len(c['shape']) == 2 and min(c['shape']) > 1]           # 257x256, 256x257
+        pick += rng.sample([c for c in pixels if npx(c) < 2 ** 16], 1)
+        n2 = lambda c: c['bshape'][0]
+        pick += [rng.choice([c for c in members if c['kind'] == 'rank' and n2(c) in (256, 257)]),
+                 rng.choice([c for c in members if c['kind'] == 'mean' and n2(c) in (256, 257)]),
+                 rng.choice([c for c in members if n2(c) > 2 ** 16])]
+        return pick
     return pool
 
 
